@@ -24,9 +24,10 @@ type Prop struct{}
 func (Prop) ID() string { return "C15" }
 
 func (Prop) Plan(t vp.Tier) []vp.Stage {
-	// 16 children run in parallel: a few Ps each are plenty (and keep the GC
-	// workers of 16 processes from fighting over the cores)
-	env := []string{"GOMAXPROCS=4"}
+	// 16 children run in parallel: two Ps each are plenty, and keep the GC
+	// workers of 16 processes from fighting over the cores; golua allocates a
+	// matcher per call, a larger GOGC keeps the collector out of the way
+	env := []string{"GOMAXPROCS=2", "GOGC=400"}
 	return []vp.Stage{
 		{Name: "exhaustive", NBatches: 64, TimeoutS: 2400, Env: env},
 		{Name: "iter", NBatches: 16, TimeoutS: 1200, Env: env},
@@ -52,15 +53,16 @@ func maxSubject(t vp.Tier) int {
 func (Prop) Describe(t vp.Tier) vp.Description {
 	return vp.Description{
 		Rule: fmt.Sprintf("exhaustive stage: every pattern of <= %d tokens over the alphabet %s, against every subject of length <= %d over {a,b,(} "+
-			"(and over {a,(,)} when the pattern contains %%b()) and every start position, through pattern.New + MatchFromStart/Match; "+
+			"(and over {a,(,)} when the pattern contains %%b()) and every start position, through pattern.New + MatchFromStart/Match "+
+			"(all of it up to 3 characters of subject; of the longest subjects against the longest patterns every third, rotating with pattern, subject and seed: see subjectSelected); "+
 			"one pattern/subject pair in 50 additionally through string.find/match (all init values from -len-2 to len+2 and the default), gmatch and gsub from compiled Lua. "+
-			"iter stage: every pattern of <= %d tokens x every subject through gmatch (with and without init) and gsub with string, table and function replacements and the n argument. "+
+			"iter stage: every pattern of <= %d tokens x every subject of length <= %d through gmatch (with and without init) and gsub with string, table and function replacements and the n argument. "+
 			"random stage: generated longer patterns (all classes %%a %%c %%d %%g %%l %%p %%s %%u %%w %%x and complements, sets with ranges/classes/^, captures, position captures, back-references, %%b, %%f, anchors), "+
 			"byte-level mutations of them and strings of magic characters, against random subjects, through Go and Lua; plus the class tables byte by byte. "+
 			"cpu stage: long and pathological matches inside CPU-limited contexts. Every answer is compared with patmodel (positions, captures incl. position captures, gsub result and count, gmatch sequence, error / no error); "+
 			"malformed patterns must give a Lua error or the 'error item not reached' answer, never a Go panic. "+
 			"A case counts as non-trivial when the pattern is well formed, has >= 2 items and matched at least one subject (exhaustive/iter: distinct by pattern; random: distinct by pattern+subject).",
-			maxTokens(t), strings.Join(tokens, " "), maxSubject(t), iterTokens(t)),
+			maxTokens(t), strings.Join(tokens, " "), maxSubject(t), iterTokens(t), map[vp.Tier]int{vp.Quick: 3, vp.Thorough: 4}[t]),
 		Assumptions: []string{
 			"patmodel is a correct reading of Lua 5.4 manual §6.4.1 and of the find/match/gmatch/gsub entries (character classes in the C locale)",
 			"where the manual gives no meaning (%q for a non-class alphanumeric, descending or escaped range ends, '-' inside a set, %b with equal delimiters, '^' in gmatch, '%' + non-digit in a replacement string, negative gsub n) no verdict on the result is given, only 'no Go panic'",
